@@ -23,12 +23,13 @@ Ops (`<i>.` prefix = table i, `b.` = table 1, none = table 0): `put k v`, `get k
 Mutating ops print the result followed by ` | ` and a summary of the internal state (`m n u p` and a 64-bit digest
 of every occupied slot).
 
-Iterator values: `seq` (`tables[i].All()`, prints `seq=<id>`), `pull <seq>` (`iter.Pull2`, prints `pull=<id>`),
-`next <pull>` (prints the pair, `done`, or `invalid` once the table has been changed), `stop <pull>`;
-`range <seq> <limit>` = a `for range` over the sequence that breaks after `limit` pairs (-1: runs to the end), pairs in
-the order yielded; `nested i j <limit>` = `for range tables[i].All() { for range tables[j].All() { … } }` with the
-inner loop broken after `limit` pairs: the outer pairs in order, the number of inner pairs and a digest of their
-sequence.  Both are loops over `pull`/`next`/`stop`/`seq` steps of the Model.
+Iterator values: `seq` (`tables[i].All()`, prints `seq=<id>`; a sequence is a handle on its table, nothing is listed
+yet), `pull <seq>` (`iter.Pull2`, prints `pull=<id>`), `next <pull>` (the first `next` lists the table as it is then and
+draws the shuffle; prints the pair, `done`, or `invalid` once the table has been changed while the traversal was
+half-way), `stop <pull>`; `range <seq> <limit>` = a `for range` over the sequence that breaks after `limit` pairs (-1:
+runs to the end), pairs in the order yielded; `nested i j <limit>` = `for range tables[i].All() { for range
+tables[j].All() { … } }` with the inner loop broken after `limit` pairs: the outer pairs in order, the number of inner
+pairs and a digest of their sequence.  Both are loops over `pull`/`next`/`stop`/`seq` steps of the Model.
 
 Bulk ops (one output line; loops over `put`/`delete`/`get` steps of the Model, so that large tables do not pay for a
 state digest per operation): `putn a n st v` = `Put(a+c*st, v+c)` for c < n, prints `caps=` the capacity after every
@@ -444,9 +445,13 @@ def runRange (io : KeyIO K) (s0 : PState K Int Rng) (sid : Nat) (limit : Int) : 
     let mut got : Array String := #[]
     let mut fail : Option String := none
     for _ in [0:100000000] do
-      if limit ≥ 0 && (got.size : Int) ≥ limit then break
+      -- the loop body is entered with the pair (the sequence has run: the table is listed by this first `next`
+      -- even when `limit` is 0), and breaks when `limit` pairs have been collected
       match Pool.step shuffle s (.next p) with
-      | .ok (s', .pair e) => s := s'; got := got.push (showPair io e)
+      | .ok (s', .pair e) =>
+        s := s'
+        if limit ≥ 0 && (got.size : Int) ≥ limit then break
+        got := got.push (showPair io e)
       | .ok (s', _) => s := s'; break
       | r => s := gone; fail := some (failLine r); break
     match fail with
